@@ -140,6 +140,25 @@ def main():
                     break
               if found or tried > budget:
                   break
+        # dtype probes: the numbers are the same, the arrays are bool / small unsigned / int64 with fractional weights
+        probes = [([1.0, 0.0], None, "boolarray", "ndarray"), ([1.0, 1.0, 0.0, 1.0, 0.0], None, "boolarray", "ndarray"),
+                  ([3.0, 2.0, 1.0], [200.0, 100.0, 50.0], "ndarray", "uint8array"), ([2.0, 1.0, 3.0, 0.0], [130.0, 140.0, 1.0, 120.0], "ndarray", "uint8array"),
+                  ([3.0, 1.0, 2.0, 5.0, 4.0], [1.5, 2.5, 1.0, 1.25, 3.75], "intarray", "ndarray"), ([2.0, 1.0, 1.0, 0.0], [0.5, 0.25, 2.75, 0.5], "intarray", "ndarray")]
+        for yv, wv, yk, wk in probes:
+            for fn in fset:
+                if fn in ("median", "quantile") and wv is not None:
+                    continue
+                for inc in (True, False):
+                    if found:
+                        break
+                    tried += 1
+                    lvl = 0.5 if fn in ("mean", "median") else 0.3
+                    obs = iso.run_impl_dtypes(yv, wv, inc, fn, lvl, yk, wk)
+                    if obs[0] != "ok" and (yk == "boolarray" or wk == "uint8array"):
+                        continue      # rejecting an exotic dtype is fine; returning wrong numbers for it is not
+                    bad = judge.judge_iso(yv, wv, inc, fn, lvl, obs)
+                    if bad:
+                        found.append(dict(case=dict(y=yv, w=wv, inc=inc, functional=fn, level=lvl, y_dtype=yk, w_dtype=wk), clauses=bad, observed=obs))
         rng = random.Random(seed)
         while not found and tried < budget:
             d = iso.gen_case(rng, 14)
